@@ -169,6 +169,34 @@ pub fn scripted() -> Vec<Case> {
             v.push(Case { cfg, ops });
         }
     }
+    // every signed entity type: its open message expires while it is being signed, late signatures reach the quorum,
+    // it must never be sealed; then a chain roll-back that returns to a beacon that is already certified
+    let cfg = SutConfig { k: 5, m: 100, phi_pct: 95, n_signers: 3, cardano_database: true, cardano_transactions: true, cardano_stake_distribution: true };
+    let full = 0b111u16;
+    let reg = Op::Register { mask: full, keygen: 0, when: RegEpoch::Current };
+    let mut ops = vec![Op::Tick(1), reg.clone(), Op::EpochUp(1), Op::Tick(3), reg.clone()];
+    // epoch 2: everything gets certified once (so that epoch 3 has a parent)
+    for _ in 0..5 {
+        ops.extend([sign_all(3), Op::Tick(2)]);
+    }
+    ops.extend([Op::EpochUp(1), Op::Tick(3), reg.clone()]);
+    // epoch 3: MithrilStakeDistribution certified, then each following type expires while signing
+    ops.extend([sign_all(3), Op::Tick(2)]);
+    for _ in 0..4 {
+        ops.extend([Op::Expire(u16::MAX), sign_all(3), Op::Tick(2)]);
+    }
+    v.push(Case { cfg: cfg.clone(), ops });
+    // roll-back: (e, 179) certified at block 185, the chain goes on to 215 ((e, 209) opened), rolls back to 185
+    let mut ops = vec![Op::Tick(1), reg.clone(), Op::EpochUp(1), Op::Tick(3), reg.clone(), Op::BlocksUp(85)];
+    for _ in 0..5 {
+        ops.extend([sign_all(3), Op::Tick(2)]);
+    }
+    ops.extend([Op::BlocksUp(30), Op::Tick(2), sign_all(3), Op::Tick(2), Op::BlocksDown(30), Op::Tick(2)]);
+    for _ in 0..3 {
+        ops.extend([sign_all(3), Op::Tick(2)]);
+    }
+    ops.extend([Op::BlocksUp(45), Op::Tick(2), sign_all(3), Op::Tick(2), Op::BlocksDown(20), Op::Tick(2), sign_all(3), Op::Tick(2)]);
+    v.push(Case { cfg, ops });
     v
 }
 
@@ -278,6 +306,8 @@ pub fn run(args: &Args) -> i32 {
         .require_label("buffered-signature")
         .require_label("state:blocked-epoch-gap")
         .require_label("certificate-after-regenesis")
+        .require_label("scripted/chain-rollback")
+        .require_label("scripted/expire:done")
         .shrink_iters(120);
     crate::model::warm_up(6);
     let t = check.tier;
